@@ -23,6 +23,7 @@
     uint64; ACM_POLICY_STATUS uint64 ([wrap64] written out); list positions are
     [nat]. *)
 From CSS Require Import Lib.Base Model.Comb.
+From CSS Require Model.BruteForce.
 From Coq Require Import Arith.
 
 (** * List helpers *)
@@ -74,9 +75,11 @@ Fixpoint zmem (x : Z) (l : list Z) : bool :=
 Definition all_pairs (n : nat) : list (nat * nat) :=
   flat_map (fun a => map (pair a) (seq (S a) (n - S a))) (seq 0 n).
 
-(** little-endian uint64 <-> 8 bytes *)
+(** little-endian uint64 <-> 8 bytes ([Z.land v 255] = v mod 256, [Z.shiftr v 8]
+    = v / 256: Proofs [le_bytes_div_mod]; the bit operations evaluate fast, which
+    matters for the 41664 three-bit candidates of one combinatorial search) *)
 Fixpoint le_bytes (n : nat) (v : Z) : list Z :=
-  match n with O => [] | S n' => (v mod 256) :: le_bytes n' (v / 256) end.
+  match n with O => [] | S n' => Z.land v 255 :: le_bytes n' (Z.shiftr v 8) end.
 Fixpoint of_le (l : list Z) : Z :=
   match l with [] => 0 | b :: t => b + 256 * of_le t end.
 
@@ -513,6 +516,37 @@ Section Search.
   Definition replay_result (r : result) : D := replay (r_loc r) (apply_result r).
 
 End Search.
+
+(** * The workers of combinatorialSearch.Process (per-worker state)
+
+    [init] hands out a pair (register buffer, context); [check ctx buf] re-hashes
+    into and replays on objects owned by the context, so a pair must stay with
+    ONE goroutine.  combinatorialSearch.Process calls init() once for the start
+    value (that context is never handed to check); bruteforcer.run calls
+    initFunc -- hence init() -- once for the distance-0 shortcut and once per
+    worker goroutine of every distance 1..limit.  The workers of one distance
+    are those of bruteforcer.run (Model/BruteForce.v, property C07):
+    [cfactor GOMAXPROCS 0 C(64,d)] of them (at least 10000 combinations each,
+    so several workers only from distance 3 on), worker [i] owning the
+    combination IDs of [piece].  ID order is the lexicographic order of the
+    sorted bit lists (C08), i.e. the order of [subsets d 0 64].
+
+    [comb_offered cf reg maxd]: per init() call whose pair reaches check, in
+    slice order, the registers offered to a check that rejects everything. *)
+Definition comb_amount (d : nat) : Z := BruteForce.amount_of 64 d.
+
+Definition comb_pieces (cf : Z) (d : nat) : list (Z * Z) :=
+  let a := comb_amount d in BruteForce.pieces a (BruteForce.cfactor cf 0 a).
+
+Definition slice {A} (l : list A) (se : Z * Z) : list A :=
+  firstn (Z.to_nat (snd se - fst se)) (skipn (Z.to_nat (fst se)) l).
+
+Definition comb_offered_at (cf reg : Z) (d : nat) : list (list Z) :=
+  let cands := map (flip_reg reg) (subsets d 0 64) in
+  map (slice cands) (comb_pieces cf d).
+
+Definition comb_offered (cf reg : Z) (maxd : nat) : list (list Z) :=
+  [reg] :: flat_map (comb_offered_at cf reg) (seq 1 maxd).
 
 Arguments mkMeas {D} m_dig m_data.
 Arguments m_dig {D} m.
